@@ -345,6 +345,12 @@ def section8():
         'C05b': 'arms get asymmetric random joint limits (|lower| != upper) instead of the symmetric +-2pi of the test arm, and histories include `FKedge` requests that leave the limits through ONE joint on ONE side by 1e-3..0.5',
         'C10b': 'a quarter of the histories start with a scripted prefix (scipy FK mode, IK to a mirrored pose with legs in range, FK of the current lengths) that reaches the inverted-plate repair branch of FK',
         'C19b': 'the loopback run on real UDP sockets became a short random send/poll history over two hops (sink + forward): each datagram delivered once, an empty poll after earlier receives is silent',
+        'C02c': 'the shared argument generator (harness/mrargs.py) now draws EXACT half turns (trace exactly -1) about the coordinate axes, the face diagonals and rational axes (3,4,0)/5 ..., covering each of the three sub-branches of the angle-pi case of the logarithm, for MatrixLog3, MatrixLog6 and the trajectory functions',
+        'C07c': 'targeted starts: the start is the solution of a goal displaced along one basis twist by 0.5x / 3x / 8x that component\'s tolerance, both solver paths, all four tolerance pairs (so the test of the starting vector decides)',
+        'C11c': 'motor and shaft centres of gravity are set to DIFFERENT random distances (they were equal, as in the test platforms)',
+        'C13c': 'generated documents include one-sided joints: a limit bound written as exactly zero (30%)',
+        'C14c': 'two-pose helpers get operand pairs in the special placements their branches key on (same pose, same position, one directly above / below the other, pure translations, collinear) besides generic pairs',
+        'C17c': 'the bounds-checked worker no longer dies when a set-up step between recorded calls raises: the failure is reported (IndexError = violation) instead of an infrastructure error; the generated index theorem MatrixLog3_20 also stopped checking',
         'C11': 'small platforms placed up to 12 from the origin so that cond(invJ) reaches 1e3..1e4 (the upper part of the property\'s range)',
     }
     for d in sorted(glob.glob(os.path.join(V, 'seeded', '*', 'meta.json'))):
